@@ -49,5 +49,5 @@ def run(ck, an, tier):
             ok = False
     ck.check(ok, "SIGN", "S1.liquidation-side", fl.f.short, fl.f.loc, "liq_price: longs at the bid, shorts at the ask", "liq_price is not acq_price of the opposite sign", construct="liq_price")
     fq = an.fa("LimitOrderBook.acq_price")
-    tab = sign_table_func(fq, fq.f.params[1])
+    tab = sign_table_or_fail(ck, fq, fq.f.params[1], "S3.execution-side-shape") or {"neg": "?", "pos": "?", "zero": "?", "nan": "?"}
     ck.check(tab["neg"] == "self.bid_price" and tab["pos"] == "self.ask_price", "SIGN", "S1.execution-side", fq.f.short, fq.f.loc, "acq_price: sell at bid, buy at ask", f"acq_price table {tab}", construct="acq_price")
